@@ -1,6 +1,7 @@
 package sim
 
 import (
+	"context"
 	"container/heap"
 	"fmt"
 	"hash/fnv"
@@ -170,6 +171,7 @@ func (s *Sim) addTrace(l string) {
 // Go starts an actor goroutine; it parks before running f.
 func (s *Sim) Go(name string, f func()) {
 	atomic.AddInt32(&s.actors, 1)
+	ticket := zsimrt.Spawn()
 	go func() {
 		defer func() {
 			atomic.AddInt32(&s.actors, -1)
@@ -177,7 +179,7 @@ func (s *Sim) Go(name string, f func()) {
 				s.notify() // the driver may be asleep: the run may be over
 			}
 		}()
-		zsimrt.Enter("actor:" + name)
+		zsimrt.EnterSeq("actor:"+name, ticket)
 		f()
 	}()
 }
@@ -187,6 +189,30 @@ func (s *Sim) Actors() int { return int(atomic.LoadInt32(&s.actors)) }
 
 // Pause is a mandatory scheduling point for actors (between operations).
 func (s *Sim) Pause(site string) { zsimrt.Park(site) }
+
+// WaitDone blocks until ctx is done; like every wait of harness code that runs
+// on a goroutine of the simulation it is bracketed by scheduling points, so
+// that the goroutine parks after waking and the driver decides when it goes on
+// (several goroutines woken at one instant would otherwise run in the order of
+// the runtime's run queue).
+func (s *Sim) WaitDone(ctx context.Context) {
+	zsimrt.Recv("harness:ctx", ctx.Done())
+}
+
+// WaitDoneOrTimeout blocks until ctx is done (true) or d has passed (false).
+func (s *Sim) WaitDoneOrTimeout(ctx context.Context, d time.Duration) bool {
+	tm := time.NewTimer(d)
+	defer tm.Stop()
+	tok := zsimrt.Pre("harness:ctx-or-timer")
+	select {
+	case <-ctx.Done():
+		zsimrt.Post(tok, "harness:ctx-or-timer")
+		return true
+	case <-tm.C:
+		zsimrt.Post(tok, "harness:ctx-or-timer")
+		return false
+	}
+}
 
 // Sleep lets an actor sleep in simulated time.
 func (s *Sim) Sleep(d time.Duration) { zsimrt.Sleep(d) }
@@ -454,6 +480,9 @@ func RunOne(t *testing.T, tape *Tape, sc ScenarioFunc, o RunOpts) (res RunResult
 			s.Free = o.Free
 			if !s.Free {
 				zsimrt.Start(zsimrt.Hooks{ShouldYield: s.shouldYield, Notify: s.notify, Intn: s.intn})
+				// which ready case a select takes is part of the schedule
+				zsimrt.SetSelectSeed(uint64(tape.Intn("sched", 1<<30))<<20 | 1)
+				defer zsimrt.SetSelectSeed(0)
 			}
 			func() {
 				defer func() {
